@@ -61,21 +61,124 @@ def scrape():
         if not out:
             raise ScrapeError("blocks: no rows in " + name)
         return out
-    # --blocksz argument forms (src/bin/s4.rs cli_process_blocksz): prefix -> radix, in the order tested
-    s4 = read("src/bin/s4.rs")
-    m = re.search(r"fn cli_process_blocksz\(blockszs: &String\)(.*?)\n}\n", s4, flags=re.S)
-    if not m:
-        raise ScrapeError("blocks: cli_process_blocksz not found")
-    body = m.group(1)
-    forms = re.findall(r'blockszs\.starts_with\("(\w+)"\) \{\s*blocksz_ = match BlockSz::from_str_radix\(blockszs\.trim_start_matches\("(\w+)"\), (\d+)\)', body)
-    if not forms or any(a != b for a, b, _ in forms) or "blockszs.parse::<BlockSz>()" not in body \
-            or "std::cmp::max(BLOCKSZ_MIN, SyslogProcessor::BLOCKSZ_MIN)" not in body \
-            or "max_min <= blocksz_ && blocksz_ <= BLOCKSZ_MAX" not in body:
-        raise ScrapeError("blocks: cli_process_blocksz has a shape the model does not know")
-    t["BLOCKSZ_FORMS"] = [(a, int(r)) for a, _, r in forms]
+    # --blocksz argument forms: prefix -> radix, decided by PROBING the built binary (robust against any rewrite of
+    # cli_process_blocksz); the source scrape of the function is only a cross-check reported in block_consts.json
+    t["BLOCKSZ_PROBE"] = probe_blocksz(t)
+    t["BLOCKSZ_FORMS"] = t["BLOCKSZ_PROBE"]["forms"]
+    try:
+        t["BLOCKSZ_PROBE"]["scrape_agrees"] = (scrape_blocksz_forms(read("src/bin/s4.rs")) == t["BLOCKSZ_FORMS"])
+    except Exception as e:                       # never raises: the probe decides
+        t["BLOCKSZ_PROBE"]["scrape_agrees"] = "scrape failed: %s" % e
     t["LINE_MIN"] = rows("BLOCKZERO_ANALYSIS_LINE_COUNT_MIN_MAP")
     t["SYSLINE_MIN"] = rows("BLOCKZERO_ANALYSIS_SYSLINE_COUNT_MIN_MAP")
     return t
+
+
+def scrape_blocksz_forms(s4):
+    """(prefix, radix) pairs read off the TEXT of cli_process_blocksz (cross-check only)"""
+    m = re.search(r"fn cli_process_blocksz\(blockszs: &String\)(.*?)\n}\n", s4, flags=re.S)
+    if not m:
+        raise ScrapeError("cli_process_blocksz not found")
+    forms = re.findall(r'starts_with\("(\w+)"\) \{\s*blocksz_ = match BlockSz::from_str_radix\(blockszs\.trim_start_matches\("\w+"\), (\d+)\)', m.group(1))
+    if not forms:
+        raise ScrapeError("no starts_with/from_str_radix pairs recognised")
+    return [(a, int(r)) for a, r in forms]
+
+
+def probe_blocksz(t):
+    """What `--blocksz` ARGUMENTS the built binary accepts, by running it: for every two-character candidate prefix
+    "0<letter>" (and the empty prefix) the numerals "100" and "1000000" are offered; the value shown in the `block size`
+    line of --summary is r^2 or r^6 for the radix r the prefix selects (no other r in 2..36 gives that value), a
+    rejected pair means `not a prefix`; the digit set is confirmed with the numeral of the largest digit and of the
+    first non-digit.  Also recorded (not used by the table): the quirks (repeated prefix, '+' after the prefix, leading
+    '+'), and the accepted range by bisection on decimal values, compared with the compiled constants."""
+    import sys, string, concurrent.futures
+    sys.path.insert(0, os.path.dirname(os.path.dirname(os.path.abspath(__file__))))
+    import vlib
+    ok, log = vlib.build_s4()
+    if not ok:
+        raise ScrapeError("blocks: the s4 binary does not build (needed to probe --blocksz): " + log[-500:])
+    d = vlib.scratch_dir("gen-blocks")
+    path = os.path.join(d, "probe.log")
+    with open(path, "wb") as f:
+        f.write(b"2020-01-01T00:00:01 hello\n2020-01-01T00:00:02 hello\n")
+
+    def ask(arg):
+        rc, o, e = vlib.run_s4(["--color", "never", "--summary", "--blocksz=" + arg, path], timeout=60, env={"TZ": "UTC"})
+        m = re.search(rb"block size\s*:\s*(\d+) \(0x[0-9A-Fa-f]+\)", e)
+        if rc == 0 and m:
+            return int(m.group(1))
+        if rc == 2 and o == b"":
+            return None
+        raise ScrapeError("blocks: probing --blocksz=%r: unexpected rc=%s" % (arg, rc))
+
+    def ask_all(args):
+        with concurrent.futures.ThreadPoolExecutor(max_workers=8) as ex:
+            return dict(zip(args, ex.map(ask, args)))
+    prefixes = [""] + ["0" + c for c in string.ascii_letters]
+    ans = ask_all([p + n for p in prefixes for n in ("100", "1000000")])
+    DIG = string.digits + string.ascii_lowercase
+    forms, dec_radix, goods = [], None, {}
+    for p in prefixes:
+        v2, v6 = ans[p + "100"], ans[p + "1000000"]
+        rs = set()
+        for r in range(2, 37):
+            if v2 == r * r or v6 == r ** 6:
+                rs.add(r)
+        if p and v2 is None and v6 is None:
+            continue                                  # not a prefix (or the letter is no digit): rejected as decimal
+        if len(rs) != 1:
+            raise ScrapeError("blocks: probing --blocksz: prefix %r gives %r / %r: no single radix" % (p, v2, v6))
+        r = rs.pop()
+        # confirm the digit set of radix r behind this prefix
+        hi_d, bad_d = DIG[r - 1], (DIG[r] if r < 36 else "_")
+        k = 1
+        while int("1" + hi_d * k, r) < max(t["BLOCKSZ_MIN"], t["SP_BLOCKSZ_MIN"]):
+            k += 1
+        good, bad = "1" + hi_d * k, "1" + hi_d * (k - 1) + bad_d
+        chk = ask_all([p + good, p + bad])
+        if chk[p + good] != int(good, r) or chk[p + bad] is not None:
+            raise ScrapeError("blocks: probing --blocksz: prefix %r radix %d: digit set not confirmed (%r)" % (p, r, chk))
+        if p == "":
+            dec_radix = r
+        else:
+            forms.append((p, r))
+            goods[p] = good
+    if dec_radix != 10:
+        raise ScrapeError("blocks: probing --blocksz: a numeral without prefix is read in radix %r (the model reads it as decimal)" % dec_radix)
+    forms.sort(key=lambda pr: -pr[1])                 # deterministic order (the prefixes found do not overlap)
+    for a, _ in forms:
+        for b, _ in forms:
+            if a != b and (a.startswith(b) or b.startswith(a)):
+                raise ScrapeError("blocks: probing --blocksz: overlapping prefixes %r %r: the order of the tests matters" % (a, b))
+    quirks = {}
+    qa = []
+    for p, r in forms:
+        g = goods[p]
+        qa += [p + p + g, p + "+" + g, "+" + p + g, p.upper() + g]
+    qa += ["+100", "++100", "-100", "100 ", " 100", "1_00"]
+    qv = ask_all(qa)
+    quirks = {k: qv[k] for k in qa}
+    # accepted range by bisection on decimal values (monotone: rejected below lo and above hi)
+    def bisect(lo, hi, accepted_high):
+        # smallest accepted in (lo, hi] when accepted_high else largest accepted in [lo, hi)
+        while hi - lo > 1:
+            mid = (lo + hi) // 2
+            a = ask(str(mid)) is not None
+            if a == accepted_high:
+                hi = mid
+            else:
+                lo = mid
+        return hi if accepted_high else lo
+    some = 100 if ask("100") is not None else None
+    rng = None
+    if some is not None:
+        lo = 0 if ask("0") is not None else bisect(0, some, True)
+        top = 1 << 62
+        hi = top if ask(str(top)) is not None else bisect(some, top, False)
+        rng = [lo, hi]
+    want = [max(t["BLOCKSZ_MIN"], t["SP_BLOCKSZ_MIN"]), t["BLOCKSZ_MAX"]]
+    return dict(forms=forms, quirks=quirks, range_probed=rng, range_constants=want, range_agrees=(rng == want))
 
 
 def generate():
@@ -89,8 +192,11 @@ def generate():
     for k in ("LINE_MIN", "SYSLINE_MIN"):
         L.append("(* (range start, range end (exclusive), minimum count) *)")
         L.append("Definition %s_map : list (N * N * N) := [%s]." % (k.lower(), "; ".join("(%d, %d, %d)" % r for r in t[k])))
-    L.append("(* --blocksz forms of cli_process_blocksz: (prefix bytes, radix), in the order tested; no prefix = decimal *)")
+    L.append("(* --blocksz forms (prefix bytes, radix), PROBED on the built binary; no prefix = decimal *)")
     L.append("Definition blocksz_forms : list (list N * N) := [%s]." %
              "; ".join("([%s], %d)" % ("; ".join(str(ord(c)) for c in a), r) for a, r in t["BLOCKSZ_FORMS"]))
     L.append("")
+    import json
+    with open(os.path.join(GEN, "block_consts.json"), "w") as f:
+        json.dump({k: (v if not isinstance(v, list) else [list(x) if isinstance(x, tuple) else x for x in v]) for k, v in t.items()}, f, indent=1, default=str)
     return write_if_changed(os.path.join(GEN, "BlockConsts.v"), "\n".join(L))
